@@ -402,7 +402,7 @@ def write_jsonl(path, items):
 
 # -------------------------------------------------------------------- case replay (B3)
 def run_cases(ctx, binpath, args, cases, label="cases", timeout=3600, crash_is_violation=True,
-              max_crashes=3, chunk=40000):
+              max_crashes=3, chunk=40000, procs=1):
     """Chunked front end of _run_cases: every chunk gets a fresh driver process (bounds the file
     descriptors / goroutines leaked by abandoned in-process stores)."""
     if isinstance(cases, str):
@@ -412,10 +412,11 @@ def run_cases(ctx, binpath, args, cases, label="cases", timeout=3600, crash_is_v
         lines = [json.dumps(c, separators=(",", ":")) for c in cases]
     mism, crashes = [], []
     summ = {"cases": 0, "evals": 0, "nontrivial": 0, "corpora": 0}
-    for k in range(0, max(len(lines), 1), chunk):
+    if procs > 1 and len(lines) > procs:
+        chunk = min(chunk, (len(lines) + procs - 1) // procs)
+
+    def one(k):
         part = lines[k:k + chunk]
-        if not part:
-            break
         pth = os.path.join(ctx.scratch, "%s-chunk%d.jsonl" % (label, k // chunk))
         with open(pth, "w") as fh:
             fh.write("\n".join(part) + "\n")
@@ -424,11 +425,20 @@ def run_cases(ctx, binpath, args, cases, label="cases", timeout=3600, crash_is_v
         for o in m:
             if isinstance(o.get("n"), int):
                 o["n"] += k
+        os.remove(pth)
+        return m, s_, c
+    starts = [k for k in range(0, len(lines), chunk)]
+    if procs > 1:
+        import concurrent.futures
+        with concurrent.futures.ThreadPoolExecutor(max_workers=procs) as ex:
+            results = list(ex.map(one, starts))
+    else:
+        results = [one(k) for k in starts]
+    for m, s_, c in results:
         mism.extend(m)
         crashes.extend(c)
         for key in summ:
             summ[key] += s_[key]
-        os.remove(pth)
     return mism, summ, crashes
 
 
